@@ -15,7 +15,7 @@ MANIFEST = {
             "layer/supports/media combinations and positions; the path recovered from each placeholder of the real output "
             "must equal the imported path, wrappers must balance, warnings must match.",
     "note": "Differential only: the token streams of layer()/supports()/media conditions (compared with the executable "
-            "specification). Known: D25 (layer(a.b) gets a class prefix); D17 and D13-inside-supports() were repaired. Import signs are assumed not to contain `*/`.",
+            "specification). No known class is left for this property (D17, D13-inside-supports() and D25 were repaired). Import signs are assumed not to contain `*/`.",
     "technique": "Coq proof (lists of code points, all lengths) + symbolic model lemmas + refutation witnesses + recovery "
                  "test on the implementation output",
 }
